@@ -83,14 +83,24 @@ func (rcFamily) Gen(r *rand.Rand, i int, tier string) *hc.Case {
 				ops = append(ops, rcOp{"reset", at(latest)})
 			}
 			latest += hc.Pick(r, int64(2), n, n+1, n+3, 5*n)
-			ops = append(ops, rcOp{hc.Pick(r, "sum", "sum", "buckets"), at(latest)})
+			ops = append(ops, rcOp{hc.Pick(r, "sum", "sum", "buckets", "reset", "reset", "inc"), at(latest)}) // whichever operation it is, it presents the newest time
 			for k := 1 + r.Intn(3); k > 0; k-- {
 				ops = append(ops, rcOp{"inc", at(latest - n - hc.Pick(r, int64(-1), 0, 0, 1, 2))})
 			}
 			ops = append(ops, rcOp{hc.Pick(r, "sum", "buckets"), at(latest - hc.Pick(r, int64(1), 2, 2, n, n+1))})
+			if r.Intn(3) == 0 {
+				ops = append(ops, rcOp{"json", hc.TS{}}, rcOp{hc.Pick(r, "sum", "buckets"), at(latest - hc.Pick(r, int64(0), 1, n))})
+			}
 			continue
 		}
+		before := latest
 		t := rcStamp(r, p, &latest, &farUsed, len(ops) > nops*2/3)
+		huge := farUsed || (latest > before && latest >= int64(1)<<53)
+		if huge && r.Intn(2) == 0 {
+			// a JSON round trip right after the index became huge, then a read of the restored counter
+			ops = append(ops, rcOp{hc.Pick(r, "inc", "sum", "buckets"), t}, rcOp{"json", hc.TS{}}, rcOp{hc.Pick(r, "sum", "buckets"), t})
+			continue
+		}
 		switch x := r.Intn(100); {
 		case x < 55:
 			ops = append(ops, rcOp{"inc", t})
@@ -159,6 +169,14 @@ func rcStamp(r *rand.Rand, p rcParams, latest *int64, farUsed *bool, late bool) 
 		if late && r.Intn(2) == 0 {
 			*farUsed = true
 			return hc.TS{S: 400 * 365 * 86400} // Sub saturates: ~ 292 years
+		}
+		if w <= 1000 && r.Intn(2) == 0 {
+			// a bucket index past 2^53 (odd: no float64 holds it) -- narrow buckets, months to decades after the start
+			k := int64(1)<<53 + 1 + 2*int64(r.Intn(50))
+			if k > l {
+				d = k*w + hc.Pick(r, int64(0), w-1)
+				break
+			}
 		}
 		d = (l + 5*n) * w
 	}
